@@ -164,6 +164,7 @@ func genScenario() scenario {
 	var s scenario
 	StrayBytes = rnd.Chance(10)
 	if StrayBytes {
+		StrayString = Pick(rnd, StrayKinds)
 		out.Note("names-with-stray-bytes")
 	}
 	s.m = GenX(rnd)
